@@ -248,6 +248,30 @@ def mon_c07(run, case, stmts):
                       f"{e['path']}: branch body entered again in invocation {e['inv']} although it had parked on {o['path']} ({o['kind']}, no timer) and the backend still holds that operation as STARTED")
                 break
         seen_entry[k] = e
+    # a map/parallel call suspends only when every branch has finished or parked: none of its branch bodies is executing
+    for o in run.obs:
+        if o["kind"] in ("map", "parallel") and o["out"] == "suspend" and o.get("active_under"):
+            run.v("C07", "operation_suspended_while_its_branch_is_running", o["kind"],
+                  f"{o['path']} suspended to its caller in invocation {o['inv']} while branch bodies {o['active_under']} were still executing: they run on behind the suspension")
+    # once a map/parallel call has suspended (raised the suspension to its caller), none of its branches is started
+    # any more in that invocation - unless the enclosing branch itself is run again (then a new call is made)
+    for o in run.obs:
+        if o["kind"] not in ("map", "parallel") or o["out"] != "suspend":
+            continue
+        for e in run.entries:
+            if e["kind"] != "branch" or e["inv"] != o["inv"] or e["clk"] <= o["clk"] or parent_path(e["path"]) != o["path"]:
+                continue
+            anc, outer_rerun = parent_path(o["path"]), False
+            while anc:
+                if any(x["kind"] == "branch" and x["inv"] == e["inv"] and x["path"] == anc and o["clk"] < x["clk"] <= e["clk"] for x in run.entries):
+                    outer_rerun = True
+                    break
+                anc = parent_path(anc)
+            later_call = any(o2["path"] == o["path"] and o2["inv"] == o["inv"] and o["clk"] < o2["clk"] for o2 in run.obs if o2 is not o) and outer_rerun
+            if not outer_rerun and not later_call:
+                run.v("C07", "branch_started_after_its_operation_suspended", o["kind"],
+                      f"{e['path']}: branch body entered (clk {e['clk']}) in invocation {e['inv']} after {o['path']} had already suspended to its caller (clk {o['clk']}): it runs on behind the suspension")
+                break
     for inv in run.invocations:
         if inv.get("outcome") in ("deadlock", "time_cap"):
             run.v("C07", "invocation_never_returns", inv["outcome"],
